@@ -277,6 +277,58 @@ def number_gates(chk, prog):
     chk.floor("number / hex conversion sites in the parser", n, 3)
 
 
+LEN_CALL = r"(String::len|Vec::<T, A>::len|<impl str>::len|<impl \\[T\\]>::len|Iterator>?::count|Iterator::count|String::capacity|Vec::<T, A>::capacity)$"
+
+
+def _size_cmp(d):
+    """(operator with the length on the left, constant) when `d` compares a length / count with a constant"""
+    d = panics._strip(d)
+    if not (isinstance(d, tuple) and d[0] == "bin" and d[1] in ("Lt", "Le", "Gt", "Ge")):
+        return None
+    l, r = panics._strip(d[2]), panics._strip(d[3])
+    is_len = lambda x: isinstance(x, tuple) and desc_contains(x, lambda y: y[0] == "call" and core.re.search(LEN_CALL, y[1]) is not None)
+    is_const = lambda x: isinstance(x, tuple) and x[0] == "lit"
+    if is_len(l) and is_const(r):
+        return d[1], r[1]
+    if is_len(r) and is_const(l):
+        return {"Lt": "Gt", "Le": "Ge", "Gt": "Lt", "Ge": "Le"}[d[1]], l[1]
+    return None
+
+
+def no_size_caps(chk, prog):
+    """R3.no_size_cap: RFC 8259 puts no bound on the length of a token, a string, or the number of elements; the only quantity the parser may
+    reject on is the nesting depth.  No rejection edge is taken because a length / count is LARGE (`len >= K` -> Err, `assert(len < K)`)."""
+    reachp = panics.reach(prog, ["humphrey_json::parser::<impl humphrey_json::value::Value>::parse"])
+    n = 0
+    for p in sorted(reachp):
+        if not p.startswith("humphrey_json::"):
+            continue
+        b = prog.bodies[p]
+        for blk, t in b.calls_to(r"humphrey_json::parser::quiet_assert$"):
+            n += 1
+            c = _size_cmp(describe(prog, b, t["args"][0]))
+            if c:
+                chk.ob("R3.no_size_cap", p, f"assertion `length {c[0]} {c[1]}` does not reject long input", c[0] in ("Gt", "Ge"),
+                       f"a token / string / container longer than {c[1]} is rejected although RFC 8259 allows it (e.g. a number with many digits)", where=b.where(blk))
+        oks = core.ok_return_blocks(b, "Ok") if "Result" in b.local_ty(0) else []
+        for s_ in range(len(b.blocks)):
+            t = b.term(s_)
+            if not t or t["k"] != "switch" or t.get("discr_ty") != "bool":
+                continue
+            n += 1
+            c = _size_cmp(describe(prog, b, t["discr"]))
+            if not c or not oks:
+                continue
+            info = switch_info(prog, b, s_)
+            big = info["edges"]["true"] if c[0] in ("Gt", "Ge") else info["edges"]["false"]
+            small = info["edges"]["false"] if c[0] in ("Gt", "Ge") else info["edges"]["true"]
+            seen_big, seen_small = b.reachable([big]), b.reachable([small])
+            rejected = not any(o in seen_big for o in oks) and any(o in seen_small for o in oks)
+            chk.ob("R3.no_size_cap", p, f"branch on `length {c[0]} {c[1]}` does not reject long input", not rejected,
+                   f"input whose length / count exceeds {c[1]} can no longer be accepted although RFC 8259 allows it", where=b.where(s_))
+    chk.floor("assertions and boolean branches examined for size caps", n, 20)
+
+
 def depth_pairing(chk, prog):
     for fn in (P + "parse_array", P + "parse_object"):
         b = prog.bodies.get(fn)
@@ -487,6 +539,7 @@ def run(chk):
     tables_rule(chk, prog)
     separators(chk, prog)
     number_gates(chk, prog)
+    no_size_caps(chk, prog)
     depth_pairing(chk, prog)
     serialiser_structure(chk, prog)
     number_output(chk, prog)
